@@ -143,7 +143,13 @@ def run_d6(ctx):
         okk = need <= got and all(g == want or g.startswith("call:") for g in got)
         ctx.inst("C04/D6", "sign arm %s+%s" % arm, okk, "signing algorithm token(s) on the arm: %s (expected %s)" % (sorted(got), want))
     extra = {k: v for k, v in st.items() if k not in SIGN_TABLE}
-    ctx.inst("C04/D6", "sign has no other (key type, scheme) arms", not extra, "other arms that sign: %s" % extra)
+    # a sign call shared by the scheme arms of one key type (the arms only select the algorithm object, the call follows the
+    # inner match) sits under the key-type arm alone: it selects nothing by itself - the statics are judged on their own arms above
+    shared_calls = {k: v for k, v in extra.items() if k[0] != "?" and k[1] == "?" and all(tok.startswith("call:") for tok in v)
+                    and any(a[0] == k[0] for a in SIGN_TABLE)}
+    extra = {k: v for k, v in extra.items() if k not in shared_calls}
+    ctx.inst("C04/D6", "sign has no other (key type, scheme) arms", not extra, "other arms that sign: %s%s" % (
+        extra, ("; sign call(s) shared by the scheme arms of a key type: %s" % sorted(shared_calls)) if shared_calls else ""))
     # ECDSA keys are created for the P-256/SHA-256/ASN.1 algorithm
     ec_sites = []
     for f in fx.doc["fns"]:
